@@ -80,6 +80,11 @@ THEOREMS = [
 ]
 
 
+# ROUND 6: the callee guard is a theorem (lib/props/procinv_util.py)
+import procinv_util as _pv
+THEOREMS = THEOREMS + [t for t in _pv.COMMON_THEOREMS if t not in THEOREMS] + _pv.FAILING_EXT + ['Marwood.Proofs.C07.failed_eval_equivalent_later_closed', 'Marwood.Lemmas.Good.Demo.sHalt1_vmOkP', 'Marwood.Proofs.C07.prepared_pinv_after_failure', 'Marwood.Lemmas.Good.prepare_pinv', 'Marwood.Lemmas.Good.onError_pinv']
+META["note"] = META["note"] + _pv.NOTE + ' C07: failed_eval_equivalent_later_closed (T07.4 equivalence clause without CalleeOkAlong on any of the three runs); prepared_pinv_after_failure: its hypotheses PInv s2 / PInv t2 follow from the compiler law CompProc (the heap returned by the compiler inside prepare_eval, fresh entry lambda included, satisfies HP) via onError_pinv, pinv_gc and prepare_pinv (VmOk s2 / VmOk t2 stay hypotheses, as in the _wf theorem).'
+
 def nontrivial(req, impl):
     if req.startswith("step"):
         return "callAcc" in req or "tcallAcc" in req or "ret" in req or impl.startswith("err")
